@@ -51,6 +51,26 @@ def V_lens(r1, r2, d):
     return z3.If(d >= r1 + r2, z3.RealVal(0), z3.If(d <= ad, V_sphere(mn), PI * (F(r1, r1) - F(r1, x0)) + PI * (F(r2, r2) - F(r2, d - x0))))
 
 
+def zmin(a, b):
+    return z3.If(a <= b, a, b)
+
+
+def sf_split(r1, r2, h):
+    """sphere (radius r1, centred on the frustum end of radius r1) against the frustum profile rho_F(z) = r1 + (r2 - r1) z / h:
+    the frustum profile is the smaller one on [0, m], the sphere profile on [m, min(h, r1)]
+    (m = 0 if the frustum does not taper; else the crossing z* = 2 r1 (r1 - r2) h / (h^2 + (r1 - r2)^2), cut at h).
+    Justified by lemma `sf-split-point-is-the-profile-crossing` (contracts/C14.py: lemmas)."""
+    zs = 2 * r1 * (r1 - r2) * h / (h * h + (r1 - r2) * (r1 - r2))
+    return z3.If(r2 >= r1, z3.RealVal(0), zmin(zs, h))
+
+
+def V_sf(r1, r2, h):
+    """volume of sphere ∩ frustum sharing centre and end radius r1 = pi * integral over [0, min(h, r1)] of min(rho_S, rho_F)^2"""
+    m = sf_split(r1, r2, h)
+    top = zmin(h, r1)
+    return PI * (G(r1, r2, h, m) - G(r1, r2, h, 0)) + PI * (F(r1, top) - F(r1, m))
+
+
 def sphere_obj(S, name="s"):
     from swcgeom.utils.volumetric_object import VolSphere
 
@@ -222,7 +242,10 @@ def register(Rg: Registry):
 
 # ===========================================================================
 # sphere / frustum sharing centre and end radius
-def _concentric_setup(end):
+def _concentric_setup(end, taper=None):
+    """sphere centred on the `end` of a frustum of height hh along the unit axis u; taper: None = any radii,
+    True = the far end is thinner than the sphere's end (r2 < r1), False = it is not (r2 >= r1)"""
+
     def setup(S):
         from swcgeom.utils.volumetric_object import VolFrustumCone, VolSphere
 
@@ -231,13 +254,15 @@ def _concentric_setup(end):
         S.assume(u[0].z * u[0].z + u[1].z * u[1].z + u[2].z * u[2].z == 1)
         hh, r1, r2 = S.real("hh"), S.real("r1"), S.real("r2")
         S.assume(z3.And(hh.z > 0, r1.z > 0, r2.z > 0))
+        if taper is not None:
+            S.assume(r2.z < r1.z if taper else r2.z >= r1.z)
         far = [Sym(c[k].z + hh.z * u[k].z, "real") for k in range(3)]
         sphere = S.obj(VolSphere, center=NArr((3,), list(c), "real"), radius=r1)
         if end == "c1":
             fr = S.obj(VolFrustumCone, c1=NArr((3,), list(c), "real"), r1=r1, c2=NArr((3,), far, "real"), r2=r2)
         else:
             fr = S.obj(VolFrustumCone, c2=NArr((3,), list(c), "real"), r2=r1, c1=NArr((3,), far, "real"), r1=r2)
-        return dict(sphere=sphere, frustum_cone=fr, hh=hh, r1=r1, r2=r2)
+        return dict(sphere=sphere, frustum_cone=fr, hh=hh, r1=r1, r2=r2, axis_u=NArr((3,), list(u), "real"))
 
     return setup
 
